@@ -421,7 +421,24 @@ func runC10Observe(payload string) string {
 	// query 1: bind, assertz the clause, print it as text for the Exec path, then bind the variables
 	// further AFTER storing (must not affect the stored clause); observe the caller's variables
 	outBuf.Reset()
-	goal := engine.Term(compound(",", compound("assertz", t), compound(",", compound("write_canonical", renameHead(t, "p2")), compound("=", engine.List(vs...), engine.List(vs...)))))
+	// ... and, still in the same query, with every variable that is still free bound AFTERWARDS, look at
+	// the stored clause through clause/2: the bindings made after storing must not show
+	inqL := engine.NewVariable()
+	snap := engine.NewVariable() // the caller's variables as they are right after storing
+	inqArgs := make([]engine.Term, arity)
+	for k := range inqArgs {
+		inqArgs[k] = engine.NewVariable()
+	}
+	inqHead := engine.Term(atom("p"))
+	if arity > 0 {
+		inqHead = atom("p").Apply(inqArgs...)
+	}
+	inqB := engine.NewVariable()
+	tail := engine.Term(compound("findall", compound(":-", inqHead, inqB), compound("clause", inqHead, inqB), inqL))
+	for k := len(vs) - 1; k >= 0; k-- {
+		tail = compound(",", compound(";", compound("->", compound("var", vs[k]), compound("=", vs[k], atom("bound_later"))), atom("true")), tail)
+	}
+	goal := engine.Term(compound(",", compound("assertz", t), compound(",", compound("write_canonical", renameHead(t, "p2")), compound(",", compound("=", engine.List(vs...), engine.List(vs...)), compound(",", compound("copy_term", engine.List(vs...), snap), tail)))))
 	for k := len(bindGoals) - 1; k >= 0; k-- {
 		goal = compound(",", bindGoals[k], goal)
 	}
@@ -429,8 +446,13 @@ func runC10Observe(payload string) string {
 		goal = compound(",", pre[k], goal)
 	}
 	var after string
+	var inq []string
 	_, err := solve(&i.VM, goal, 1, 5*time.Second, func(env *engine.Env) bool {
-		after = wire(engine.List(vs...), env, newVarNamer())
+		after = wire(snap, env, newVarNamer())
+		it := engine.ListIterator{List: inqL, Env: env}
+		for it.Next() {
+			inq = append(inq, wire(it.Current(), env, newVarNamer()))
+		}
 		return false
 	})
 	if err != nil {
@@ -493,5 +515,5 @@ func runC10Observe(payload string) string {
 	if strings.Contains(cl, "C2::-") && (strings.TrimSpace(bindS) != "" || strings.Count(cl, "V0") > 1) {
 		nt = 1
 	}
-	return fmt.Sprintf("vars=%s ;; assert: %s ;; exec: %s ### nt=%d result=ok", after, a, bb, nt)
+	return fmt.Sprintf("vars=%s ;; inq: [%s] ;; assert: %s ;; exec: %s ### nt=%d result=ok", after, strings.Join(inq, " , "), a, bb, nt)
 }
